@@ -532,6 +532,26 @@ def handleCpq (args res : List String) : Option String :=
     | c :: _ => some c
   | _ => some "bad c04cpq-args"
 
+/-! ### c04orient — PolygonFromOrientedLoops and the polygon of the reversed loops partition the sphere
+
+  `c04orient <G:loops> <probes> = <PQ per probe>` : P = PolygonFromOrientedLoops(loops), Q = PolygonFromOrientedLoops(every loop reversed);
+  for every probe that lies on no edge plane of the input (exact determinant ≠ 0 for every edge) exactly one of P, Q contains it.
+  No model of the normalisation is needed: the law is judged on the implementation's own answers. -/
+def handleOrient (args res : List String) : Option String :=
+  match args with
+  | [spec, probes] => do
+    let sp ← parseSpec? spec
+    let ps ← parsePts? probes
+    if res.length != ps.size then some "bad c04orient-arity" else
+    let edges : List (XP × XP) := sp.loops.flatMap fun vs => loopEdges vs.toList
+    let bad := (ps.toList.zip res).find? fun (p, r) =>
+      let onPlane := edges.any fun (a, b) => det3 a.iv b.iv p.iv == 0
+      !onPlane && (r == "TT" || r == "FF")
+    match bad with
+    | some (_, r) => some (verdictP res res (some ("oriented-polygon-and-reversed-polygon-do-not-partition:" ++ r)))
+    | none => some (verdictP res res none)
+  | _ => some "bad c04orient-args"
+
 def handle (op : String) (args res : List String) : Option String :=
   if res.any (·.startsWith "PANIC:") then
     if op.startsWith "c04" then some ("propfail panic " ++ " ".intercalate (res.filter (·.startsWith "PANIC:"))) else none
@@ -540,6 +560,7 @@ def handle (op : String) (args res : List String) : Option String :=
   else if op == "c04idx" then handleIdx args res
   else if op == "c04cross" then handleCross args res
   else if op == "c04cpq" then handleCpq args res
+  else if op == "c04orient" then handleOrient args res
   else if op == "c04cpqrm" then handleCpq args.dropLast res   -- same judge; the last argument only describes the add / remove history
   else none
 
